@@ -5,6 +5,7 @@ import Mp.CueDeps
 import Mp.Tree
 import Mp.CueWalk
 import Mp.CueAstProofs
+import Mp.CueAstBridge
 /-! C15 — property theorems (proved in the imported modules; statements are checked there, axioms audited here). -/
 #print axioms Deps.closure_sound
 #print axioms Deps.closure_complete
@@ -51,3 +52,8 @@ import Mp.CueAstProofs
 #print axioms Mp.validateKeys_acc_found
 #print axioms Mp.vParts_idents
 #print axioms Mp.vTop_key_path
+#print axioms Mp.ext_path
+#print axioms Mp.ext_parts
+#print axioms Mp.ext_params
+#print axioms Mp.ext_logic
+#print axioms Mp.vTopF_extends_vTop
